@@ -592,6 +592,7 @@ public:
   void deallocate() {
     nodeData.destroy();
     nodeData.deallocate();
+    this->outOfLineDeallocate();
 
     edgeIndData.deallocate();
     edgeIndData.destroy();
